@@ -43,8 +43,8 @@ E1_PLANS = {
         "thorough": [("dmulti", "n2"), ("umulti", "n2"), ("dmulti", "n3"), ("umulti", "n3")],
     },
     "C05": {
-        "quick": [("dweighted", "n2"), ("uweighted", "n2"), ("dweighted", "n3d3"), ("uweighted", "n3d4")],
-        "thorough": [("dweighted", "n2"), ("uweighted", "n2"), ("dweighted", "n3a"), ("uweighted", "n3a"), ("dweighted", "n3b"), ("uweighted", "n3b")],
+        "quick": [("dweighted", "n2"), ("uweighted", "n2"), ("dweighted", "n2tiny"), ("uweighted", "n2tiny"), ("dweighted", "n3d3"), ("uweighted", "n3d4")],
+        "thorough": [("dweighted", "n2"), ("uweighted", "n2"), ("dweighted", "n2tiny"), ("uweighted", "n2tiny"), ("dweighted", "n3a"), ("uweighted", "n3a"), ("dweighted", "n3b"), ("uweighted", "n3b")],
     },
     "C06": {
         "quick": [(c, "n2") for c in ("dir_NoLabel", "und_NoLabel", "dir_int", "und_int", "dir_string", "und_string", "dmulti", "umulti", "dweighted", "uweighted")] +
@@ -129,13 +129,72 @@ def run_e1(prop, tier, deadline):
     return outcome
 
 
+# ------------------------------------------------------------------------------------------- C07
+C07_GROUPS = {"dir_NoLabel": 0, "und_NoLabel": 1, "dir_int": 2, "und_int": 3, "dir_string": 4, "und_string": 5, "dmulti": 6, "umulti": 7, "dweighted": 8, "uweighted": 9}
+SAN_FLAGS = ["-O1", "-fsanitize=address,undefined", "-fno-sanitize-recover=undefined", "-fno-omit-frame-pointer"]
+SAN_ENV = {"ASAN_OPTIONS": "detect_leaks=0:abort_on_error=1:max_allocation_size_mb=1024:allocator_may_return_null=0", "UBSAN_OPTIONS": "halt_on_error=1:abort_on_error=1:print_stacktrace=1"}
+
+
+def c07_build(group):
+    return Build("c07_g%d" % group, "harness/c07.cpp", compiler="clang++", flags=SAN_FLAGS + ["-DGROUP=%d" % group])
+
+
+def compile_failures(outcome, built):
+    bad = False
+    for name, (ok, path, blog) in built.items():
+        if not ok:
+            bad = True
+            outcome.add_violation("%s:compile:%s" % (outcome.prop, name), "the harness, a client of the documented public API, no longer compiles against /repo/include:\n" + blog[-3000:],
+                                  {"build": name, "compile_log": blog[-6000:]})
+    return bad
+
+
+def run_c07(tier, deadline):
+    import shutil
+    outcome = Outcome("C07", tier, "fault_enumeration")
+    variants = ["n2"] if tier == "quick" else ["n2", "n3d3"]
+    builds = {c: c07_build(g) for c, g in C07_GROUPS.items()}
+    built = build_all(list(builds.values()))
+    if compile_failures(outcome, built):
+        outcome.coverage = {"evaluations": 1, "distinct_nontrivial": 0, "rule": "harness did not compile", "samples": ["compile failure"]}
+        return outcome
+    jobs = []
+    for c in C07_GROUPS:
+        for v in variants:
+            jobs.append(Job(builds[c], ["--config", c, "--variant", v, "--tier", tier], label="%s/%s" % (c, v), timeout=deadline + 300, deadline=deadline, env=SAN_ENV))
+    workdir = os.path.join(build_dir(), "work-C07-%s-%d" % (tier, os.getpid()))
+    run_jobs(jobs, built, workdir)
+    results = collect(outcome, jobs, built)
+    shutil.rmtree(workdir, ignore_errors=True)
+    eps = {}
+    for r in results:
+        for k, v in r.get("info", {}).items():
+            if k.startswith("entry_points:"):
+                eps[k[len("entry_points:"):]] = v
+    outcome.coverage = {
+        "evaluations": sum_counter(results, "rejected_calls"),
+        "distinct_nontrivial": sum_counter(results, "rejected_calls_on_nonempty_graphs"),
+        "rule": "case = (reachable graph state, invalid call): every public entry point taking a vertex index, each argument position out of range (size, size+1, UINT_MAX) with every valid value in the "
+                "other positions, both force values; getSubgraph(WithRemap) with a bad member; the path searches from/to a missing vertex; resize-down, unforced setEdgeLabel and getEdgeLabel/Weight on every absent pair. "
+                "States = E1 fixpoint on <=2 vertices (thorough: plus depth-3 frontier on 3 vertices). All cases are distinct by construction; non-trivial = the state has at least one edge.",
+        "samples": gather_samples(results, 4) + [{"entry_points_exercised": eps}],
+        "states": sum_counter(results, "states"),
+        "entry_points": sum_counter(results, "entry_points"),
+        "sanitizers": "clang++ -fsanitize=address,undefined -fno-sanitize-recover=undefined; abort_on_error",
+    }
+    outcome.assumptions = ["out-of-range values tried: size, size+1, UINT_MAX", "each rejected call is shown to be a self-loop of the state graph in every reachable state, so interleavings with valid calls follow by induction",
+                           "an out-of-bounds access is detected by AddressSanitizer/UBSan in the worker (clang 14)"]
+    return outcome
+
+
 PLANS = {}
+PLANS["C07"] = run_c07
 for _p in E1_PLANS:
     PLANS[_p] = (lambda prop: (lambda tier, deadline: run_e1(prop, tier, deadline)))(_p)
 
 
 def all_builds():
-    bs = [e1_build(g) for g in range(8)]
+    bs = [e1_build(g) for g in range(8)] + [c07_build(g) for g in range(10)]
     return bs
 
 
